@@ -396,6 +396,18 @@ fn gen_doc(h: &Harvest, anchor: Option<&str>, rng: &mut Rng, depth: usize) -> Do
   }
   let cfg = GenCfg { picks: std::cell::Cell::new(0), disjoint_vars: false, max_depth: depth, utils: utils.keys().cloned().collect(), allow_field: true, allow_range: false };
   let mut body = if rng.chance(3, 4) { gen_targeted(h, &mut utils, rng) } else { rule::gen_rule(h, &cfg, 0, rng) };
+  if !h.fields.is_empty() && !h.patterns.is_empty() && rng.chance(1, 5) {
+    // an ancestor (or descendant) search restricted to a field, with capturing sub-patterns: an ancestor that
+    // matches the sub-rule but holds the node under another field must leave no bindings behind
+    let sub = if rng.chance(1, 2) {
+      R::Pattern(rng.pick(&h.patterns).clone())
+    } else {
+      R::Any(vec![R::Pattern(rng.pick(&h.patterns).clone()), R::Pattern(rng.pick(&h.patterns).clone())])
+    };
+    let f = Some(rng.pick(&h.fields).clone());
+    let stop = if rng.chance(2, 3) { rule::Stop::End } else { rule::Stop::Rule(Box::new(R::Kind(rng.pick(&h.kinds).clone()))) };
+    body = if rng.chance(3, 4) { R::Inside(Box::new(sub), stop, f) } else { R::Has(Box::new(sub), stop, f) };
+  }
   strip_of_rule_patterns(&mut body);
   let p0 = match anchor {
     Some(a) => a.to_string(),
